@@ -7,6 +7,7 @@ use crate::spec::{cbor_head, insertion_sort, sha};
 use bc_components::DigestProvider;
 use bc_envelope::base::envelope::EnvelopeCase;
 use bc_envelope::prelude::*;
+#[allow(unused_imports)]
 use dcbor::prelude::*;
 use std::collections::HashSet;
 
